@@ -26,6 +26,14 @@ Theorem C01_gen_corr_formula : forall rows : list (list R),
 Proof. exact gen_corr_is_formula. Qed.
 Print Assumptions C01_gen_corr_formula.
 
+(* difference' * precision * difference / P, for every symmetric precision *)
+Theorem C01_gen_mahal_formula : forall (p q : nat) (N M : list (list R)), Forall (fun r => length r = q) N -> N <> [] ->
+  Forall (fun a => length a = length N) M -> (forall a b, bilin ROps N a b = bilin ROps N b a) ->
+  Gen_C01.mahal_values ROps (Z.of_nat p) M N
+  = rdm_of (fun a b => (bilin ROps N (vsub ROps a b) (vsub ROps a b) / INR p)%R) M.
+Proof. exact gen_mahal_is_formula. Qed.
+Print Assumptions C01_gen_mahal_formula.
+
 (* sum (l_a - l_b)(log l_a - log l_b) / P on prior-regularised rates, for any function in the place of log *)
 Theorem C01_gen_poisson_formula : forall (lg : R -> R) (p : nat) (M : list (list R)) (pl pw : R),
   Forall (fun a => length a = p) M ->
